@@ -147,6 +147,14 @@ def wf_cell(val, comp, alloc):
 ARRAY_MODE = [__import__("os").environ.get("PYVC_ARRAY_MODE", "axiom")]
 
 
+def pat_ok(t):
+    """z3 rejects patterns that contain ite / boolean connectives (it only prints a warning)"""
+    if z3.is_app(t) and t.decl().kind() in (z3.Z3_OP_ITE, z3.Z3_OP_AND, z3.Z3_OP_OR, z3.Z3_OP_NOT, z3.Z3_OP_IMPLIES,
+                                             z3.Z3_OP_EQ, z3.Z3_OP_DISTINCT):
+        return False
+    return all(pat_ok(c) for c in t.children())
+
+
 def mk_array(st, j, body, closed=True, pats=()):
     """array defined pointwise: as a lambda term, or (closed terms only) a fresh constant + axiom"""
     if not closed or getattr(st, "in_binder", 0):
@@ -177,7 +185,7 @@ def normalized(n, el):
     j = bvar("j")
     body = z3.Implies(z3.Or(j < 0, j >= n), z3.Select(el, j) == VNone)
     try:
-        return z3.ForAll([j], body, patterns=[z3.Select(el, j)])
+        return z3.ForAll([j], body, patterns=[z3.Select(el, j)]) if pat_ok(el) else z3.ForAll([j], body)
     except z3.Z3Exception:
         return z3.ForAll([j], body)
 
